@@ -133,7 +133,7 @@ pub fn campaigns(ctx: &Ctx) -> Stats {
         Some(Case3::G(GradCase { op: cfg.op(), leaves, seed: Some(distinct_seed(out.numel())), uses: 2, passes: 1, same_operand: false, detached_clone: 0 }))
     }));
     // arbitrary programs: every stored gradient (leaves and operation results) has its array's shape and value
-    let (len, total) = t.pick((12usize, 30000u64), (32, 600000));
+    let (len, total) = t.pick((12usize, 120000u64), (32, 600000));
     let mut cfg = GenCfg::programs(true);
     cfg.max_steps = t.pick(14, 40);
     cfg.kinds.push((Kind::Backward, 6));
